@@ -203,6 +203,11 @@ func (c *Ctx) untrustedData() *Val {
 	put("L", l)
 	inner := &Val{Kind: "m", M: map[string]*Val{"X": c.untrustedLeaf()}, Keys: []string{"X"}}
 	put("M", inner)
+	n1 := &Val{Kind: "m", Keys: []string{"N", "X"}, M: map[string]*Val{"N": {Kind: "n"}, "X": c.untrustedLeaf()}}
+	if c.rng.Intn(2) == 0 {
+		n1 = &Val{Kind: "m", Keys: []string{"N", "X"}, M: map[string]*Val{"N": n1, "X": c.untrustedLeaf()}}
+	}
+	put("N", n1)
 	return m
 }
 
@@ -216,10 +221,24 @@ var c01Special = []string{
 	"<s{{if .C}}{{end}}pan>{{.X}}</span>", "<iframe><b title=\"</iframe>\"></iframe>", "<xmp>{{.X}}</xmp>", "<?php x ?>", "<!x>", "</ x>", "<![CDATA[x]]>",
 	"<p title=\"a &lt; b\">", "&amp;{{.X}}", "<p\ttitle\n=\r\"{{.X}}\"\f>", "<img src=\"/a.png\" alt=\"{{.X}}\"/>", "<p title='{{.X}}' lang=\"{{.Y}}\">",
 	"{{range .L}}<li>{{.}}</li>{{end}}", "{{with .M}}<i title=\"{{.X}}\">{{.X}}</i>{{end}}", "{{template \"h0\" .}}", "<b>{{template \"h1\" .}}</b>",
+	"<!-- off: {{template \"h0\" .}} -->", "<p><!--{{template \"h1\" .}}--></p>", "<!-- {{.X}} {{template \"h2\" .}}-->",
+}
+
+// recursive and mutually recursive templates that leave a tag or an attribute open
+var c01Recursive = []string{
+	"{{define \"A\"}}{{if .N}}{{template \"B\" .N}}{{.X}}>{{end}}<b {{end}}{{define \"B\"}}{{template \"A\" .}}{{end}}{{template \"A\" .}}>done",
+	"{{define \"A\"}}{{if .N}}{{template \"A\" .N}}{{end}}{{.X}}<b {{end}}{{template \"A\" .}}>",
+	"{{define \"A\"}}{{if .N}}{{template \"A\" .N}}{{.X}}>{{end}}<b {{end}}{{template \"A\" .}}>done",
+	"{{define \"A\"}}{{if .N}}{{template \"B\" .N}}{{.X}}\">{{end}}<b title=\"{{end}}{{define \"B\"}}{{template \"A\" .}}{{end}}{{template \"A\" .}}\">done",
+	"{{define \"A\"}}{{if .N}}<i>{{template \"A\" .N}}</i>{{end}}{{.X}}{{end}}<p>{{template \"A\" .}}</p>",
+	"{{define \"A\"}}{{.X}}{{if .N}}{{template \"B\" .N}}{{end}}{{end}}{{define \"B\"}}<b title=\"{{template \"A\" .}}\">{{end}}<p title='{{template \"A\" .}}'>",
 }
 
 func (c *Ctx) c01Text() string {
 	var b strings.Builder
+	if c.rng.Intn(10) == 0 {
+		return pick(c, c01Recursive)
+	}
 	for i, n := 0, 1+c.rng.Intn(4); i < n; i++ {
 		if c.rng.Intn(2) == 0 {
 			b.WriteString(pick(c, c01Special))
@@ -285,6 +304,7 @@ var dangerous = []string{
 	"javascript&colon;alert(1)//" + mk, "javascript&#58;alert(1)//" + mk, "jav&#x09;ascript:alert(1)//" + mk, "vbscript:x//" + mk, "data:text/html,<script>alert(1)</script>" + mk,
 	"alert(1)//" + mk, "</script><script>alert(1)//" + mk, "x\" onmouseover=\"alert(1)//" + mk, "color:red;" + mk, "expression(alert(1))" + mk, "-->" + mk, mk,
 	"https://evil.example/x.js?" + mk, "//evil.example/x.js?" + mk, "/ok/" + mk, "a.png 1x, javascript:alert(1)//" + mk + " 2x", "x," + mk,
+	"/a.png\f,javascript:alert(1)//" + mk, "/a.png\f1x,javascript:alert(1)//" + mk, "/a.png\t,javascript:alert(1)//" + mk, "/a.png\r2x,\njavascript:alert(1)//" + mk,
 }
 
 // strings for code-loading URL attributes: marker FIRST, so that its position is where the data starts
@@ -300,7 +320,21 @@ var c02Prefixes = []string{"", "", "", "/", "/p/", "/p?q=", "#", "https://ok.exa
 
 func (c *Ctx) c02Text() (string, string) {
 	q := pick(c, []string{"\"", "\"", "'"})
-	switch c.rng.Intn(14) {
+	switch c.rng.Intn(16) {
+	case 14: // ambiguous static prefixes: nested branches, and the same prefix seen unambiguously earlier in the set
+		t := pick(c, urlTargets[:10])
+		st := pick(c, []string{"java", "JAVA", "j", "javascript", "javascript:"})
+		form := pick(c, []string{
+			"{{if .C}}/x{{else}}{{if .D}}/x{{else}}" + st + "{{end}}{{end}}{{.B}}",
+			"{{if .C}}/x{{else}}" + st + "{{end}}{{.B}}",
+			"{{if .C}}{{if .D}}" + st + "{{else}}/x{{end}}{{else}}/x{{end}}{{.B}}",
+			"{{if .C}}" + st + "{{end}}{{.B}}",
+		})
+		return "<" + t[0] + " " + t[1] + "=" + q + form + q + ">", "ambig-prefix"
+	case 15:
+		t := pick(c, urlTargets[:10])
+		pre := pick(c, []string{"https://ok.example/", "/p/", "/p?q=", "//ok.example/"})
+		return "<" + t[0] + " " + t[1] + "=" + q + pre + "{{.O}}" + q + "><" + t[0] + " " + t[1] + "=" + q + "{{if .C}}" + pre + "{{end}}{{.X}}" + q + ">", "ambig-after-same-prefix"
 	case 0, 1, 2: // URL attribute, one action
 		t := pick(c, urlTargets)
 		rel := ""
@@ -310,7 +344,7 @@ func (c *Ctx) c02Text() (string, string) {
 		return "<" + t[0] + rel + " " + t[1] + "=" + q + pick(c, c02Prefixes) + "{{.X}}" + q + ">", "url1"
 	case 3, 4: // split over adjacent actions / branches / range
 		t := pick(c, urlTargets)
-		form := pick(c, []string{"{{.A}}{{.B}}", "{{.A}}{{if .C}}{{.B}}{{end}}", "{{range .P}}{{.}}{{end}}", "{{.A}}{{template \"hb\" .}}", "{{template \"ha\" .}}{{.B}}", "{{with .M}}{{.X}}{{end}}{{.B}}"})
+		form := pick(c, []string{"{{.A}}{{.B}}", "{{.A}}{{if .C}}{{.B}}{{end}}", "{{range .P}}{{.}}{{end}}", "{{.A}}{{template \"hb\" .}}", "{{template \"ha\" .}}{{.B}}", "{{with .M}}{{.V}}{{end}}{{.B}}"})
 		return "<" + t[0] + " " + t[1] + "=" + q + pick(c, []string{"", "", "/x?"}) + form + q + ">{{define \"ha\"}}{{.A}}{{end}}{{define \"hb\"}}{{.B}}{{end}}", "split"
 	case 5, 6: // code-loading URL: data at the origin-determining start
 		t := pick(c, codeTargets)
@@ -356,7 +390,7 @@ func (c *Ctx) c02Data() *Val {
 	put("C", &Val{Kind: "b", B: c.rng.Intn(2) == 0})
 	put("D", &Val{Kind: "b", B: c.rng.Intn(2) == 0})
 	put("P", &Val{Kind: "l", L: []*Val{s(sp[0]), s(sp[1])}})
-	put("M", &Val{Kind: "m", Keys: []string{"X"}, M: map[string]*Val{"X": s(sp[0])}})
+	put("M", &Val{Kind: "m", Keys: []string{"V"}, M: map[string]*Val{"V": s(sp[0])}})
 	put("Head", s("javascript:alert(1)//"+mk))
 	put("Tail", &Val{Kind: "m", Keys: []string{"Head", "Tail"}, M: map[string]*Val{"Head": s("x"), "Tail": {Kind: "n"}}})
 	return m
@@ -385,6 +419,11 @@ var c03Contents = []string{"", "x", "a&b", "a&amp;b", "<b>x</b>", "\"><script>al
 var c03Contexts = [][2]string{{"div", ""}, {"p", ""}, {"textarea", ""}, {"title", ""}, {"script", ""}, {"style", ""}, {"b", ""},
 	{"div", "title"}, {"a", "href"}, {"img", "src"}, {"form", "action"}, {"script", "src"}, {"iframe", "src"}, {"img", "srcset"}, {"p", "style"}, {"iframe", "srcdoc"}, {"p", "id"},
 	{"p", "dir"}, {"a", "target"}, {"img", "loading"}, {"script", "async"}, {"p", "data-x"}, {"label", "for"}, {"input", "value"}, {"p", "class"}, {"link", "href"}, {"input", "formaction"}}
+
+var c03Warm = []string{
+	`<i title="{{.}}">x</i>`, `<img alt="{{.}}" title="{{.}}">`, `<a href="{{.}}">l</a>`, `<p>{{.}}</p>`,
+	`<b data-x="{{.}}" title='{{.}}' lang="{{.}}">y</b>`, `<textarea>{{.}}</textarea>`, `<img srcset="{{.}}">`,
+}
 
 func genC03(c *Ctx) {
 	c.stats.Rule = "matrix: 7 safe types (+ pointer, pointer to pointer) × contexts (element contents incl. RCDATA/script/style; one (element, attribute) per sanitization context, with and without static prefix, single and double quotes) × hostile contents; every cell executed twice: with the typed value and with the plain string of the same contents. Exhaustive over the matrix in both tiers (contents list longer in thorough). Non-trivial: the typed execution was accepted."
@@ -427,16 +466,33 @@ func genC03(c *Ctx) {
 							}
 							typed := wrap(&Val{Kind: "t", Tag: tag, S: cont}, depth)
 							plain := wrap(&Val{Kind: "s", S: cont}, depth)
+							// process-wide state must not matter: analyse an unrelated template in an unrelated set
+							// before some cells, and run the typed / plain executions in either order
+							if c.rng.Intn(3) == 0 {
+								hw := newHistBuilder()
+								hw.add(Step{Op: "new", H: 0, Name: "warm"})
+								hw.add(Step{Op: "parse", H: 0, Text: c03Warm[c.rng.Intn(len(c03Warm))]})
+								hw.add(Step{Op: "exec", H: 0, Data: &Val{Kind: "s", S: "w"}})
+							}
+							plainFirst := c.rng.Intn(2) == 0
+							var r2 string
+							h2 := newHistBuilder()
+							if plainFirst {
+								h2.add(Step{Op: "new", H: 0, Name: "root"})
+								h2.add(Step{Op: "parse", H: 0, Text: text})
+								r2 = h2.add(Step{Op: "exec", H: 0, Data: plain})
+							}
 							h1 := newHistBuilder()
 							h1.add(Step{Op: "new", H: 0, Name: "root"})
 							if h1.add(Step{Op: "parse", H: 0, Text: text}) == "" {
 								continue
 							}
 							r1 := h1.add(Step{Op: "exec", H: 0, Data: typed})
-							h2 := newHistBuilder()
-							h2.add(Step{Op: "new", H: 0, Name: "root"})
-							h2.add(Step{Op: "parse", H: 0, Text: text})
-							r2 := h2.add(Step{Op: "exec", H: 0, Data: plain})
+							if !plainFirst {
+								h2.add(Step{Op: "new", H: 0, Name: "root"})
+								h2.add(Step{Op: "parse", H: 0, Text: text})
+								r2 = h2.add(Step{Op: "exec", H: 0, Data: plain})
+							}
 							c.emit("tmpl.c03", []string{form, ctx[0], ctx[1], pre, tag, cont, h1.hist(), h2.hist()}, r1+"~"+r2, strings.HasPrefix(r1, "ok"), form+"-"+tag)
 						}
 					}
